@@ -6,5 +6,6 @@ pub mod c10;
 pub mod c12;
 pub mod c13;
 pub mod c14;
+pub mod fuzzdec;
 pub mod probe;
 pub mod rb;
